@@ -313,8 +313,10 @@ func (e *mevent) expected(o string) string {
 // consecutive responses and may have alternatives that differ in WHERE the tick branch loaded the
 // id it acknowledged (nothing in the log tells): a bad-data response followed by an
 // acknowledgement is either
-//   fused: tick (load), badRecv .. badDone, send result, tickAck, send result   (one tick branch)
-//   split: badRecv .. badDone, send result (outer bad-data branch); tick, tickNoBad, tickAck, send result
+//
+//	fused: tick (load), badRecv .. badDone, send result, tickAck, send result   (one tick branch)
+//	split: badRecv .. badDone, send result (outer bad-data branch); tick, tickNoBad, tickAck, send result
+//
 // A tick branch whose final comparison sends nothing is indistinguishable from the outer bad-data
 // branch (same state afterwards) and a tick that neither reports nor acknowledges is a no-op, so
 // these are not generated.
